@@ -41,6 +41,8 @@ def plan(tier, seed):
 def build_text(spec):
     rnd = random.Random(spec['seed'])
     near = None
+    if spec.get('text') is not None:
+        return spec['text'], None, rnd
     if spec['kind'] == 'soup':
         text = mutate.token_soup(rnd)
     else:
@@ -62,7 +64,8 @@ def run(spec, deciding_prefixes=('exc:', 'novalueerror:', 'budget:'), methods=No
     case_dir = os.path.join(os.environ.get('VERIF_RUN_DIR', '/var/tmp'), 'cases')
     os.makedirs(case_dir, exist_ok=True)
     path = os.path.join(case_dir, spec['id'].replace('/', '_') + '.py')
-    pos = mutate.positions(text, rnd, spec['npos'], near=near)
+    pos = [tuple(p) for p in spec['positions']] if spec.get('positions') else \
+        mutate.positions(text, rnd, spec['npos'], near=near)
     outside = mutate.outside_positions(text, rnd)
     sweepwl.run_text(rec, text, path, pos, outside=outside,
                      methods=methods or sweepwl.ALL_METHODS, monitors=monitors,
